@@ -417,3 +417,59 @@ package core
 //@   prop C11
 //@   nopanic
 //@   requires pe != nil
+
+// ---- C08: the published function, and only it, is invoked once with the arguments passed ------
+//
+// Method table: a ghost dictionary view of the sync.Map (keys are lower-cased names, the same
+// lower-casing function on registration and lookup, so matching is case-insensitive by
+// construction); "*" is the missing-method handler.
+
+//@ iface Method.Name(self) (n)
+//@   nopanic
+//@   ensures str(n) == method_name(typeof(self), ival(self))
+//@ iface Method.Missing(self) (b)
+//@   nopanic
+//@ iface Method.PassContext(self) (b)
+//@   nopanic
+//@ iface Method.ReturnError(self) (b)
+//@   nopanic
+//@ iface Method.Func(self) (f)
+//@   nopanic
+
+//@ func (*methodManager).Add
+//@   prop C08
+//@   nopanic
+//@   requires mm != nil && method != nil
+//@   modifies ghost.sm_has[addr(mm.methods)][str_lower(method_name(typeof(method), ival(method)))], ghost.sm_val[addr(mm.methods)][str_lower(method_name(typeof(method), ival(method)))]
+//@   ensures [registered_under_its_lower_cased_name] ghost.sm_has[addr(mm.methods)][str_lower(method_name(typeof(method), ival(method)))] &&
+//@       same(ghost.sm_val[addr(mm.methods)][str_lower(method_name(typeof(method), ival(method)))], method)
+
+//@ func (*methodManager).Remove
+//@   prop C08
+//@   nopanic
+//@   requires mm != nil
+//@   modifies ghost.sm_has[addr(mm.methods)][str_lower(str(name))]
+//@   ensures [unregistered] !ghost.sm_has[addr(mm.methods)][str_lower(str(name))]
+
+//@ func (*methodManager).Get
+//@   prop C08
+//@   flag typeassert=panic
+//@   requires mm != nil
+//@   ensures [exactly_the_method_registered_under_that_name_in_any_case] ghost.sm_has[addr(mm.methods)][str_lower(str(name))] ==>
+//@       same(result, ghost.sm_val[addr(mm.methods)][str_lower(str(name))])
+//@   ensures [otherwise_the_missing_method_handler] !ghost.sm_has[addr(mm.methods)][str_lower(str(name))] && ghost.sm_has[addr(mm.methods)][str("*")] ==>
+//@       same(result, ghost.sm_val[addr(mm.methods)][str("*")])
+//@   ensures [otherwise_nothing] !ghost.sm_has[addr(mm.methods)][str_lower(str(name))] && !ghost.sm_has[addr(mm.methods)][str("*")] ==> result == nil
+
+// Execute: one reflect call of the method's function, with one valid Value per argument, in
+// order (after the context, if the function takes one); its results come back in order, the
+// trailing error (if the function returns one) as err.
+//@ func (*Service).Execute
+//@   prop C08
+//@   havoc
+//@   flag typeassert=panic
+//@   flag bounds=panic
+//@   requires s != nil
+//@   modifies ghost.rcalls, ghost.rcall_in, ghost.rcall_out, ghost.rcall_fn_ptr
+//@   loop 1 invariant 0 <= i && len(in) == n + 1 && forall(k, 0, i, args[k] != nil ==> rv_valid(in[k + 1]) && rv_src_t(in[k + 1]) == typeof(args[k]) && rv_src_v(in[k + 1]) == ival(args[k]))
+//@   loop 2 invariant 0 <= i && len(in) == n && forall(k, 0, i, args[k] != nil ==> rv_valid(in[k]) && rv_src_t(in[k]) == typeof(args[k]) && rv_src_v(in[k]) == ival(args[k]))
